@@ -496,7 +496,7 @@ impl Gen {
                 let i = self.rng.below(n as u64) as usize;
                 let j = (i + 1 + self.rng.below(n as u64 - 1) as usize) % n;
                 let ares = pi.assets[j].amount.u128();
-                let ask_amt = match self.rng.below(5) { 0 => 1, 1 => ares / 2, 2 => ares / 50, _ => (ares / 100_000).max(1) * (1 + self.rng.below(3000) as u128) };
+                let ask_amt = match self.rng.below(6) { 0 => 1, 1 => ares / 2, 2 => ares / 50, 3 => (10u128.pow(6 + self.rng.below(13) as u32) * (1 + self.rng.below(9) as u128)).min(ares / 3).max(1), _ => (ares / 100_000).max(1) * (1 + self.rng.below(3000) as u128) };
                 let ask = (self.sim.sym(&pi.assets[j].denom), ask_amt);
                 let od = self.sim.sym(&pi.assets[i].denom);
                 let v = self.query(SQuery::ReverseSimulation { ask: ask.clone(), offer_denom: od.clone(), pool: pool.clone() });
